@@ -145,6 +145,15 @@ def decl_pairs(tier):
                 bad = field("x", [(0, 1), (3, 3)], T_uint(3), array={"k": 3, "stride": base // 2})
                 bad["radix"] = rdx
                 add("spelling (%s): strided list array overruns the base" % rdx, base, [bad], [field("x", [(0, 1), (3, 3)], T_uint(3), array={"k": 2, "stride": base // 2 - 2})])
+            # lists whose entries overlap: the entry that reaches furthest up is neither the last one nor the one
+            # that starts highest
+            if base >= 8:
+                add("bounds: nested list entry, the outer one overruns", base, [field("x", [(base - 3, base + 1), (base - 2, base - 2)], T_uint(6))],
+                    [field("x", [(base - 5, top), (base - 2, base - 2)], T_uint(6))])
+                add("bounds: equal-start list entries, the longer one overruns", base, [field("x", [(base - 2, base), (base - 2, base - 1)], T_uint(5))],
+                    [field("x", [(base - 3, top), (base - 3, base - 2)], T_uint(5))])
+                add("bounds: array of overlapping list entries overruns", base, [field("x", [(0, 3), (1, 1)], T_uint(5), array={"k": 2, "stride": base - 3})],
+                    [field("x", [(0, 3), (1, 1)], T_uint(5), array={"k": 2, "stride": base - 4})])
             add("bounds: non-contiguous array overruns the base", base,
                 [field("x", [(0, 0), (base - 2, base - 2)], T_uint(2), array={"k": 3, "stride": 1})],
                 [field("x", [(0, 0), (base - 2, base - 2)], T_uint(2), array={"k": 2, "stride": 1})])
@@ -310,6 +319,16 @@ def enum_cases(tier):
         out.append(("exhaustive=false written before uN, all 2^N variants", lit_enum("E", N, "false", seq(full), exh_first=True), mk_enum("x", "E", N, list(range(full)))))
         out.append(("exhaustive=conditional written before uN, discriminant 2^N", lit_enum("E", N, "conditional", [("A", "0", None), ("B", "%d" % full, "#[cfg(all())]")], exh_first=True),
                     mk_enum("x", "E", N, [0, full - 1])))
+    # enums stamped out by macro_rules!: a discriminant that arrives through a fragment is still bound by 2^N
+    def mac_enum(N, frag, disc, exh):
+        return ["macro_rules! stamp_e {", "    ($name:ident, $v:%s) => {" % frag, "        /// must-fail enum", "        #[bitenum(u%d, exhaustive = %s)]" % (N, exh),
+                "        #[derive(Debug, PartialEq, Eq)]", "        pub enum $name {", "            /// a", "            A = 0,", "            /// b", "            B = $v,", "        }", "    };", "}",
+                "stamp_e!(E, %d);" % disc]
+    for N in (1, 2, 3, 7, 12):
+        full = 1 << N
+        for frag in ("expr", "literal", "tt"):
+            out.append(("macro-stamped: discriminant 2^N through $v:%s" % frag, mac_enum(N, frag, full, "false"), None))
+        out.append(("macro-stamped: discriminant 2^N+5 through $v:expr, conditional", mac_enum(N, "expr", full + 5, "conditional"), None))
     # an explicit #[repr(..)] (the storage integer or a wider one) does not relax any rule: rustc then checks the
     # discriminants against the repr type only, the 2^N bound stays the macro's job
     for N, rp in ((1, "u8"), (2, "u8"), (3, "u8"), (7, "u8"), (2, "u16"), (9, "u16"), (12, "u16"), (15, "u16"), (17, "u32"), (24, "u32"), (31, "u32"), (33, "u64"), (48, "u64"), (63, "u64")):
@@ -629,6 +648,36 @@ def build_negative(tier, seed):
         twin.add(e2)
         s2 = struct(mod, "W", 32, [field("x", [(0, w_enum - 1)], T_enum("E", w_enum, full))], family="TWIN")
         twin.add(s2)
+    # the same width rule for custom-typed fields that have no getter (write-only): nothing but the setter can notice
+    # that the type's raw value is wider or narrower than the selected bits.  (A field with *no* access specifier
+    # gets no accessor at all, so a wrong width there cannot yield anything that truncates or aliases: not a witness.)
+    for (w_enum, w_field, acc, base, lo, nested) in ((4, 3, "w", 24, 21, False), (4, 2, "w", 8, 0, False), (2, 3, "w", 32, 4, False), (8, 7, "w", 32, 8, False), (7, 8, "w", 32, 8, False),
+                                                     (16, 12, "w", 64, 40, False), (3, 2, "w", 7, 5, False), (4, 3, "w", 24, 21, True), (8, 4, "w", 16, 12, True),
+                                                     (4, 3, "w", 32, 0, "arr"), (2, 1, "w", 8, 7, False)):
+        n += 1
+        mod = "t%d" % n
+        if nested is True:
+            tdecl = struct(mod, "E", w_enum, [field("a", [(0, w_enum - 1)], T_uint(w_enum))], family="NEG")
+            lines = render_struct(tdecl)
+            from corpus import T_nested
+            ty_bad, ty_good = T_nested("E", w_field), T_nested("E", w_enum)
+        else:
+            e = mk_enum(mod, "E", w_enum, [0, 1, (1 << w_enum) - 1])
+            lines = render_enum(e)
+            ty_bad, ty_good = T_enum("E", w_field, False), T_enum("E", w_enum, False)
+        arr = {"k": 2, "stride": None} if nested == "arr" else None
+        f = field("x", [(lo, lo + w_field - 1)], ty_bad, access=acc, array=arr)
+        s = struct(mod, "W", base, [f, field("other", [(lo + w_field, lo + w_field)] if lo + w_field < base and not arr else [(base - 1, base - 1)], T_bool())], family="NEG")
+        from corpus import imports_of
+        item = raw_item(mod, "W", lines + render_struct(s), "C09", "width: u%d %s on %d bits, access `%s`%s" % (w_enum, "nested bitfield" if nested is True else "enum", w_field, acc or "none", " (array)" if arr else ""),
+                        extra={"imports": sorted(imports_of(s) | (imports_of(tdecl) if nested is True else set()))})
+        negt.add(item)
+        if nested is True:
+            twin.add(struct(mod, "E", w_enum, [field("a", [(0, w_enum - 1)], T_uint(w_enum))], family="TWIN"))
+        else:
+            twin.add(mk_enum(mod, "E", w_enum, [0, 1, (1 << w_enum) - 1], family="TWIN"))
+        glo = 0
+        twin.add(struct(mod, "W", 64, [field("x", [(glo, glo + w_enum - 1)], ty_good, access=acc or "w", array=({"k": 2, "stride": None} if arr else None))], family="TWIN"))
     # `debug` needs a getter for every field: write-only / unspecified / array fields must not get one
     for i, (clause, prop, acc, arr) in enumerate([
             ("debug with a write-only field must not compile (w fields have no getter)", "C17", "w", None),
